@@ -140,7 +140,7 @@ Inductive slmode := SlLstat | SlStat | SlEval.
 Definition slmode_eqb (a b : slmode) : bool :=
   match a, b with SlLstat, SlLstat | SlStat, SlStat | SlEval, SlEval => true | _, _ => false end.
 
-Definition slCountMax : nat := 64.
+Definition slCountMax : nat := 40.
 
 Record sres := {
   sr_parent : option nat;     (* nil only when a Windows volume does not exist *)
@@ -187,8 +187,8 @@ Fixpoint search_loop (fuel : nat) (h : heap) (v : view) (slm : slmode) (vol pare
             | Some (NFile _ _ _ _) => if last then ret EFileExists else ret ENotADirectory
             | Some (NSym link _) =>
                 let slcount' := S slcount in
-                if Nat.ltb slCountMax slcount' then ret ETooManySymlinks
-                else if last && slmode_eqb slm SlLstat then ret EFileExists
+                if last && slmode_eqb slm SlLstat then ret EFileExists
+                else if Nat.ltb slCountMax slcount' then ret ETooManySymlinks
                 else
                   let saved' := match saved with
                                 | None => if last && slmode_eqb slm SlStat then Some pi1 else None
